@@ -123,6 +123,14 @@ def pUnits : List String → List FieldU × List String
       else if tok.front = 'r' then match body with
         | [w, bits] => .reserved (nat! w) (nat! bits)
         | _ => .access 0 0
+      else if tok.front = 'x' then match body with
+        | [ty, attr, len] => .xaccess (nat! ty) (nat! attr) (nat! len)
+        | _ => .access 0 0
+      else if tok.front = 'c' then .connName (tok.drop 1).toString
+      else if tok.front = 'b' then match body with
+        | [w, hex] => .connBuf (nat! w) (hexBytes hex)
+        | [w] => .connBuf (nat! w) []
+        | _ => .access 0 0
       else match body with
         | [ty, attr] => .access (nat! ty) (nat! attr)
         | _ => .access 0 0
